@@ -516,7 +516,9 @@ def replace_by_pure_dict(
     replace_fn = lambda x, v: x.replace(v) if hasattr(x, 'replace') else v
   current_flat = dict(to_flat_state(state))
   for kp, v in traversals.flatten_mapping(pure_dict).items():
-    kp = tuple(map(try_convert_int, kp))
+    if kp not in current_flat:
+      # keys may have lost their type on the way (e.g. ints restored as str)
+      kp = tuple(map(try_convert_int, kp))
     if kp not in current_flat:
       raise ValueError(f'key in pure_dict not available in state: {kp}')
     current_flat[kp] = replace_fn(current_flat[kp], v)
